@@ -243,6 +243,12 @@ class Shape:
                 e.append('else CHECK(mem_same_address(1, 1, 1), "same base + index*scale as written");')
             else:
                 e.append('CHECK(mem_same_address(%d, %d, %d), "same base + index*scale as written");' % (hb, hi, sc))
+                if hi and not hb:
+                    # C11: the scale*index rewriting ([2*r] -> [r+r], [1*r] -> [r]) happens only when the no-base option is NASM
+                    e.append('if (!(g_opt & 8)) CHECK(!DI.has_base && DI.has_index && DI.index == g_inum && DI.scale == %d, "STRICT no-base option: scale*index is encoded literally (no base register, the written scale)");' % sc)
+                if hi and hb:
+                    # C11: base and index are exchanged only for a stack-pointer index under the NASM swap option (own shape "b+i")
+                    e.append('if (!(g_opt & 4) && %d != 1) CHECK(DI.has_base && DI.base == g_bnum && DI.has_index && DI.index == g_inum, "STRICT swap option: base and index are encoded as written");' % sc)
             e.append('CHECK(DI.disp == V_DISP, "same sign-extended displacement as written");')
         if self.expect:
             e.append(self.expect)
@@ -269,7 +275,21 @@ def imm_alu(wexpr):
             'CHECK(DI.has_imm && (DI.imm & MASKW(%s)) == (V_IMM & MASKW(%s)), "immediate decodes to the written value at the operand width");' % (wexpr, wexpr))
 
 
+def supported_mnemonics():
+    """the intended instruction set: the enumerators of asm_instr in /repo's enums.h (nopN rows share the enumerator nop)"""
+    import os, re, vf
+    txt = open(os.path.join(vf.REPO, "src", "enums.h")).read()
+    m = re.search(r"typedef enum \{\s*EOI,(.*?)\}\s*asm_instr;", txt, re.S)
+    names = set(re.findall(r"\b([a-z][a-z0-9_]*)\b", re.sub(r"//.*", "", m.group(1)))) if m else set()
+    return names | {"nop%d" % k for k in range(2, 12)}
+
+
 def shapes():
+    sup = supported_mnemonics()
+    return [s for s in _shapes() if s.mnem in sup]
+
+
+def _shapes():
     S = []
     P1, P2, P3, P4, P5, P11 = "C01", "C02", "C03", "C04", "C05", "C11"
 
@@ -342,11 +362,12 @@ def shapes():
               ' { int nasm_ = (g_opt & 1) && !(g_opt & 2), smart_ = (g_opt & 2) != 0, fits_ = V_IMM <= 0xffffffffUL;'
               '   int want32_ = fits_ && (nasm_ || (smart_ && %s));'
               '   CHECK(want32_ == OPD_KIND(0, S1_K_R32), "narrowed to the 32-bit destination form exactly when the mov-immediate mode says so"); }' % narrow_allowed)
-        add("mov", "S1_OP_MOV", [R('R64'), Imm(cls, neg)], "mov.r64imm", [P3, P11], "quick", exp_opds=[0, 'imm'], expect=ex)
+        add("mov", "S1_OP_MOV", [R('R64'), Imm(cls, neg)], "mov.r64imm", [P3, P11] + (["C12"] if (cls, neg) in (("hex", False), ("hex16", False)) else []), "quick", exp_opds=[0, 'imm'], expect=ex)
         S[-1].no_opd_checks = True
     # ---- lea
     for f, t in memforms("quick"):
-        add("lea", "S1_OP_LEA", [R(GV), Mem(f)], "lea", [P2, P11], t, expect=opsize_is(W0))
+        # the discriminating probes of C12 (behaviour follows the stored bits of each dimension separately): [2*i], [1*i], [b+i]
+        add("lea", "S1_OP_LEA", [R(GV), Mem(f)], "lea", [P2, P11] + (["C12"] if f in ("2*i", "1*i", "b+i") else []), t, expect=opsize_is(W0))
     # ---- movzx
     add("movzx", "S1_OP_MOVZX", [R(GV), R(G8 + ['R16'])], "movzx.rr", [P1, P11], "quick",
         extra_constrain="ASSUME(kind_bits(g_kind[0]) > kind_bits(g_kind[1]));", expect=opsize_is(W0))
@@ -385,6 +406,11 @@ def shapes():
         add(mn, op, [R(GALL), 'one'], "shift.r1", [P1, P3], "quick", expect=base_exp)
         if mn not in ("ror", "rcr"):
             add(mn, op, [R(GALL), R('R8', fixed=('R8', 1))], "shift.rcl", [P1], "quick", exp_opds=[0, 'cl'], expect=base_exp)
+        if mn not in ("ror", "rcr"):
+            for kw in ("byte", "qword", "word", "dword"):
+                for f in ("b+d", "b+i*4+d"):
+                    add(mn, op, [Mem(f, kw), R('R8', fixed=('R8', 1))], "shift.mcl", [P2, P1], "thorough", exp_opds=['mem', 'cl'],
+                        expect=opsize_is(str(KWBITS[kw])) + ' CHECK(DI.mem_bits == %d, "access width as the keyword says");' % KWBITS[kw])
         if mn != "ror":
             for kw in ("byte", "qword", "word", "dword"):
                 for f in ("b+d", "b+i*4+d"):
@@ -400,6 +426,9 @@ def shapes():
             expect=opsize_is(W0) + ' CHECK(DI.has_imm && (DI.imm & 0xff) == V_IMM, "shift count is the written value");')
         if True:
             add(mn, op, [R(GV), R(GV), R('R8', fixed=('R8', 1))], "shxd.rrcl", [P1], "quick", extra_constrain=SAMEW2, exp_opds=[0, 1, 'cl'], expect=opsize_is(W0))
+        for f in ("b+d", "b+i*4+d"):
+            add(mn, op, [Mem(f), R(GV), R('R8', fixed=('R8', 1))], "shxd.mrcl", [P2, P1], "thorough", exp_opds=['mem', 0, 'cl'],
+                expect='CHECK(DI.opsize == kind_bits(g_kind[0]), "operand size is the register width");')
         for f in ("b+d", "b+i*4+d"):
             add(mn, op, [Mem(f), R(GV), Imm("hex", False)], "shxd.mri", [P3, P2], "thorough", extra_constrain="ASSUME(V_IMM <= 0xff);",
                 expect='CHECK(DI.opsize == kind_bits(g_kind[0]), "operand size is the register width"); CHECK(DI.has_imm && (DI.imm & 0xff) == V_IMM, "shift count is the written value");')
@@ -427,6 +456,8 @@ def shapes():
         add("nop" + (str(k) if k > 1 else ""), "S1_OP_NOP", [], "nop", [P1, P11], "quick", exp_opds=[],
             expect='CHECK(g_n == %d, "nop%d is %d byte(s) long");' % (k, k, k))
         S[-1].skip_nopd = True
+    add("xabort", "S1_OP_XABORT", [Imm("hex", False)], "xabort", [P3], "quick", extra_constrain="ASSUME(V_IMM <= 0xff);", exp_opds=['imm'],
+        expect='CHECK(DI.has_imm && (DI.imm & 0xff) == V_IMM, "abort code is the written value");')
     # ---- clflush / prefetch
     for mn, op in (("clflush", "S1_OP_CLFLUSH"), ("prefetchnta", "S1_OP_PREFETCHNTA"), ("prefetcht0", "S1_OP_PREFETCHT0"),
                    ("prefetcht1", "S1_OP_PREFETCHT1"), ("prefetcht2", "S1_OP_PREFETCHT2")):
@@ -467,7 +498,7 @@ def shapes():
             add(mn, op, [R('MM'), R('MM')], "mmx.rr", [P4], q, expect=opsize_is("64"))
         for f in (MEM_ALL if mn == "paddb" else ["b+i*4+d"]):
             add(mn, op, [R('XMM'), Mem(f)], "sse.vm", [P2, P4], "quick" if (mn == "paddb" and f in MEM_QUICK) else "thorough", expect=opsize_is("128"))
-            if mn not in ("pmulld", "pmuldq", "pand"):
+            if mn not in ("pmulld", "pmuldq"):
                 add(mn, op, [R('MM'), Mem(f)], "mmx.rm", [P2, P4], "quick" if (mn == "paddb" and f in MEM_QUICK) else "thorough", expect=opsize_is("64"))
     add("psrldq", "S1_OP_PSRLDQ", [R('XMM'), Imm("hex", False)], "sse.vi", [P4, P3], "quick", extra_constrain="ASSUME(V_IMM <= 0xff);",
         expect='CHECK((DI.imm & 0xff) == V_IMM, "byte count is the written value");')
@@ -519,6 +550,11 @@ def shapes():
 
 
 def branch_shapes():
+    sup = supported_mnemonics()
+    return [s for s in _branch_shapes() if s.mnem in sup]
+
+
+def _branch_shapes():
     """relative branches: d written as a numeral (C05)"""
     out = []
     rel = [("jmp", "S1_OP_JMP", True), ("call", "S1_OP_CALL", False), ("jrcxz", "S1_OP_JRCXZ", "only8"), ("xbegin", "S1_OP_XBEGIN", "only32")]
@@ -543,3 +579,27 @@ def branch_shapes():
                 sh.branch = dict(must_accept=must_accept, only8=(has8 == "only8"), short=(kw == "short"), inr8=inr8)
                 out.append(sh)
     return out
+
+
+TSTR = ["", "i", "m", "mi", "mr", "mri", "mrr", "mv", "my", "r", "ri", "rm", "rmi", "rmr", "rr", "rri", "rrm", "rrr", "rv",
+        "vi", "vr", "vm", "vv", "vvm", "vvmi", "vvv", "vvvi", "ym", "yy", "yym", "yymi", "yyy", "yyyi"]
+
+
+def type_string(shape):
+    t = ""
+    for o in shape.opds:
+        if isinstance(o, R):
+            t += {'r': 'r', 'm': 'r', 'x': 'v', 'y': 'y'}[o.ph]      # mm registers are scanned as scalar registers
+        elif isinstance(o, Mem):
+            t += 'm'
+        else:
+            t += 'i'                                                  # numerals, also the literal 1 of shifts
+    return t
+
+
+def legal_forms():
+    """S4 as a map mnemonic -> set of operand-type strings x86-64 defines (and this generator covers by an E-lemma)"""
+    legal = {m: set() for m in supported_mnemonics()}
+    for s in shapes() + branch_shapes():
+        legal[s.mnem].add(type_string(s))
+    return legal
